@@ -125,12 +125,21 @@ example : (lexAll Classes.ascii (asc "a | b")).map (fun t => (t.ty, t.pos.off, t
 
 /-! ### lines -/
 
-/-- Every LF byte becomes exactly one Newline token (at the LF's offset, in order), and there
-    is no other Newline token. -/
+/-- Every LF byte becomes exactly one Newline token (the token ends with that LF; in order), and
+    there is no other Newline token. -/
 theorem newlines_are_the_lf_bytes (C : Classes) (input : Bytes) :
     newlineOffsets (lexAll C input) = lfOffsets input := by
   rw [lexAll_eq_lexS]
   exact lexS_newlines C input.length (Z.init input) (by simp [Z.init])
+
+/-- A Newline token is one line end: the LF alone, or the CR directly in front of it and the LF
+    (`"\r\n"` is ONE token that starts at the CR); it ends at column 1 of the next line. -/
+theorem newline_is_one_line_end (C : Classes) (input : Bytes) :
+    ∀ t ∈ lexAll C input, t.ty = .newline → newlineShape input t = true := by
+  rw [lexAll_eq_lexS]
+  exact lexS_forall_input C input (fun t => t.ty = .newline → newlineShape input t = true)
+    (fun z hz => by rw [← hz]; exact next_newline_shape C z) input.length (Z.init input)
+    (by simp [Z.init]) (by simp [Z.init, Z.input])
 
 /-- A token's line is 1 + the number of LF bytes in front of it. -/
 theorem token_lines (C : Classes) (input : Bytes) : linesOk input (lexAll C input) = true := by
@@ -147,16 +156,14 @@ theorem oracle_on_model (C : Classes) (input : Bytes) : (judge input (lexAll C i
   have h2 := newlines_are_the_lf_bytes C input
   have h3 := token_lines C input
   have h4 := tokens_cover C input
-  have h5 : (lexAll C input).all (fun t => t.ty != .newline ||
-      (t.stop.off == t.pos.off + 1 && t.stop.line == t.pos.line + 1 && t.stop.col == 1)) = true := by
+  have h5 : (lexAll C input).all (fun t => t.ty != .newline || newlineShape input t) = true := by
     rw [List.all_eq_true, lexAll_eq_lexS]
     intro t ht
-    have := lexS_forall C (fun t => t.ty = .newline →
-        t.stop.off = t.pos.off + 1 ∧ t.stop.line = t.pos.line + 1 ∧ t.stop.col = 1)
-      (next_newline_shape C) input.length (Z.init input) (by simp [Z.init]) t ht
+    have := lexS_forall_input C input (fun t => t.ty = .newline → newlineShape input t = true)
+      (fun z hz => by rw [← hz]; exact next_newline_shape C z) input.length (Z.init input)
+      (by simp [Z.init]) (by simp [Z.init, Z.input]) t ht
     by_cases hty : t.ty = .newline
-    · obtain ⟨a, b, c⟩ := this hty
-      simp [a, b, c]
+    · simp [this hty]
     · simp [hty]
   unfold judge
   simp only [h1, h2, h3, h4, h5, Bool.not_true, Bool.false_eq_true, if_false, bne_self_eq_false]
@@ -181,7 +188,8 @@ theorem next_looks_behind_no_further_than_lf (C : Classes) (k : Nat) (pre : Byte
   rw [next_shift]; simp [shiftR]
 
 /-- One call of `Next` consumes blanks and then either bytes without a line feed (staying on the
-    line), or exactly one line feed, for which it returns the Newline token and moves to
+    line), or exactly one line feed (with the carriage return in front of it, if any: `sp` is
+    blanks, possibly followed by that CR), for which it returns the Newline token and moves to
     column 1 of the next line, at line start. -/
 theorem next_consumes_lf_only_as_newline (C : Classes) (z : Z) :
     ∃ cons, z.after = cons ++ (next C z).2.after ∧ (next C z).2.before = cons.reverse ++ z.before ∧
@@ -224,6 +232,7 @@ theorem looksLikeDate_no_panic (a : Bytes) : looksLikeDateChk a = some (looksLik
     fuel the result is the same.  (`lexAll_fuel_suffices` is the same statement for `Next`.) -/
 theorem scan_loops_fuel_suffice (n : Nat) :
     (∀ p z, z.after.length ≤ n → advWhileF p n z = advWhile p z) ∧
+    (∀ p z, z.after.length ≤ n → advLineF p n z = advLine p z) ∧
     (∀ z l, z.after.length ≤ n → scanAccountF n z l = scanAccountF z.after.length z l) ∧
     (∀ z hd, z.after.length ≤ n → scanNumberF n z hd = scanNumberF z.after.length z hd) ∧
     (∀ a hc, a.length ≤ n → looksLikeAccountF n a hc = looksLikeAccountF a.length a hc) ∧
@@ -231,6 +240,7 @@ theorem scan_loops_fuel_suffice (n : Nat) :
     (∀ s, s.length ≤ n → lastIndexNotSpaceF n s = lastIndexNotSpaceF s.length s) ∧
     (∀ s, s.length ≤ n → Utf8.runesF n s = Utf8.runes s) :=
   ⟨fun p z h => (advWhile_eq_fuel p z n h).symm,
+   fun p z h => (advLine_eq_fuel p z n h).symm,
    fun z l h => scanAccountF_fuel _ _ z l h (Nat.le_refl _),
    fun z hd h => scanNumberF_fuel _ _ z hd h (Nat.le_refl _),
    fun a hc h => looksLikeAccountF_fuel _ _ a hc h (Nat.le_refl _),
